@@ -6,7 +6,7 @@ cd /verif
 W=/tmp/sc/harmless
 rm -rf $W; mkdir -p /tmp/sc
 git -C /repo worktree add -q --detach $W HEAD || exit 2
-for f in harmless/h*.diff; do git -C $W apply $f || echo "does not apply: $f"; done
+for f in harmless/h*.diff harmless/g*.diff; do git -C $W apply /verif/$f || echo "does not apply (overlaps an earlier patch, skipped): $f"; done
 VERIF_REPO=$W VERIF_BUILD_SUFFIX=.harmless ./verif harness --all --brief > /tmp/sc/harmless.txt 2>&1
 echo "harnesses with 0 refuted: $(grep -c ' 0 refuted' /tmp/sc/harmless.txt)"
 echo "other lines:"; grep -v ' 0 refuted' /tmp/sc/harmless.txt
